@@ -913,7 +913,8 @@ fn gen_d(rng: &mut Rng) -> String {
             0..=3 => format!("O{id}"),
             4 => format!("C{id}"),
             5 => format!("E{id}"),
-            6 => format!("G{id}"),
+            6 if (id >> 1) & 3 == 2 => format!("G{id}"),
+            6 => format!("E{id}"),
             7..=9 if fetches < 10 => {
                 fetches += 1;
                 seq += 1;
@@ -1028,6 +1029,11 @@ mod wire_d {
                 'O' | 'C' | 'E' | 'G' | 'W' => {
                     let Ok(n) = rest.parse::<u64>() else { return bad() };
                     if sid(n).is_none() || rest != n.to_string() {
+                        return bad();
+                    }
+                    // a git data frame exists only on a stream id of git kind (anything else is a frame
+                    // that does not decode: section (a))
+                    if k == 'G' && (n >> 1) & 3 != 2 {
                         return bad();
                     }
                     ops.push((k, Some(n)));
